@@ -125,6 +125,12 @@ def part_space(tier):
         for t2, f2 in reps2:
             out.append(((t1, t2, "pair"), "{ %s %s }" % (f1, f2)))
             out.append(((t1, t2, "pair-if"), "{ if (RtV) { %s } else { %s } }" % (f1, f2)))
+    # loads and stores in every order (the attributes of a part do not depend on the order of its statements)
+    for li, l in enumerate(("RdV = mem_load_u8(RsV);", "ReV = mem_load_s32(RtV);", "RdV = RsV + mem_load_u16(RtV);")):
+        for si, st in enumerate(("mem_store_u8(RsV, RtV);", "mem_store_u32(RtV, RsV);")):
+            for on, form in (("ls", "{ %(l)s %(s)s }"), ("sl", "{ %(s)s %(l)s }"), ("s-if-l", "{ %(s)s if (RsV) { %(l)s } }"), ("if-s-l", "{ if (RsV) { %(s)s } %(l)s }"), ("ssl", "{ %(s)s %(s)s %(l)s }"),
+                             ("lsl", "{ %(l)s %(s)s %(l)s }"), ("s-jump-l", "{ %(s)s JUMP(riV); %(l)s }"), ("s-new-l", "{ %(s)s if (PuN) { %(l)s } }"), ("for-s-l", "{ for (i = 0; i < 2; i++) { %(s)s } %(l)s }")):
+                out.append((("mem-order", li, si, on), form % {"l": l, "s": st}))
     seen = set()
     res = []
     for tag, t in out:
